@@ -43,6 +43,27 @@ CLAIMED = {
                 "performs) is outside the property.",
         "ref": "DESIGN.md section 3 C03",
     },
+    "C05": {
+        "technique": "LikeExact.tla: exact symbolic (rational + ln/ln(1+2^e) atoms) reference for the three log-densities and gradients, "
+                     "enumerated by TLC; every case replayed into the real likelihood classes",
+        "text": "TLC enumerates data sets of 1..2 (quick) / 1..3 (thorough) data with scales 2^j, rational, ln q and 2^+-600 ln 2 "
+                "residuals (hundreds of sigma) and integer Jacobian rows; __call__, gradient, cost and cost_gradient of the real classes "
+                "must agree with the printed exact values to 1e-9 of the sum of |terms|: every normalising constant, sign, factor and "
+                "the chain rule are decided on the whole family.",
+        "note": "Trusted: TLC, math.log/log1p/tanh at exact arguments. Sub-normal or overflowing scales are not decided.",
+        "ref": "DESIGN.md section 3 C05",
+    },
+    "C06": {
+        "technique": "PriorExact.tla: exact prior log-densities, gradients, supports, generator requests and JointPrior index routing; "
+                     "TLC enumerates every layout; each is built with the real classes (module generator replaced by a recording stand-in)",
+        "text": "Every assignment of up to 3 (quick) / 4 (thorough) parameter indices to up to 3 components, every type assignment, "
+                "component order and index order, with probe vectors inside and outside the support: value, cost, gradient entries, "
+                "bounds, sampled coordinates and the distribution parameters requested from the generator are compared with TLC; "
+                "Posterior = likelihood + prior exactly; initial guesses validated by PriorTrace.tla.",
+        "note": "Trusted: TLC, numpy generators producing the requested distributions. Gradient entries of coordinates outside their "
+                "own support are not compared (undefined).",
+        "ref": "DESIGN.md section 3 C06",
+    },
     "C07": {
         "technique": "Leapfrog.tla state machine in exact dyadic arithmetic model-checked by TLC (reversibility, Jacobian determinant, "
                      "exact shadow-energy conservation, mass consistency); every exact orbit replayed bit-exactly into run_leapfrog / "
